@@ -273,7 +273,9 @@ def main(argv):
     if ck.replay:
         doc = json.load(open(ck.replay))["replay"]
         n, pat = doc.get("n"), doc.get("pattern")
-        if pat is None:
+        import shutil
+        shutil.rmtree(ck.scratch, ignore_errors=True)
+        if pat is None and doc.get("which") != "sparse":
             print("replay names no input:", doc)
             return 0
         orng = random.Random(doc.get("seed", ck.seed + 1))
